@@ -304,6 +304,7 @@ CHECKS["C14"] = {
         {"part": "dual", "pkg": "./dual/", "test": "TestVerif_C14_Dual", "quick": 600, "thorough": 3000},
         {"part": "dual-provider", "pkg": "./provider/dual/", "test": "TestVerif_C14_DualProvider", "quick": 40, "thorough": 1200},
         {"part": "refresh-manager", "pkg": "./rtrefresh/", "test": "TestVerif_C14_RefreshManager", "quick": 800, "thorough": 10000},
+        {"part": "refresh-manager-race", "pkg": "./rtrefresh/", "test": "TestVerif_C14_RefreshManagerRace", "quick": 150, "thorough": 3000},
     ],
 }
 
